@@ -3,7 +3,7 @@
 Require Import ExtrOcamlBasic.
 From C13 Require Import Model_C13 Code_C13.
 Extraction Language OCaml.
-Extraction "../ocaml/C13/gen/numtext.ml"
+Extraction "../ocaml/C13/_build/numtext.ml"
   to_string_spec string_to_number_spec parse_float_spec parse_int_spec
   to_fixed_spec to_exponential_spec to_precision_spec radix_string_spec
   numeric_literal_spec json_number_spec shortest round_nneg ratio
